@@ -1,4 +1,153 @@
+import Iauthd.Module.Spec
+import Iauthd.Util.Bytes
 import Drv.Util
-def main (_args : List String) : IO UInt32 := do
-  IO.eprintln "driver not implemented yet"
-  return 2
+/-
+  drv_module model [pinned] | spec | judge   < ops
+
+  op      graph <m:dep,dep;m2:…|-> bad=<m,…> list=<m,…> [list=<m,…> …]
+  model   → status <n|sigN> why=<-|loop:a>b|unloadable:m|fuel> events <kind:m> …
+            (same record syntax as harness/h_module.c; `pinned` = module_dfs as pinned)
+  spec    → demand abort | demand run <modules that must be loaded, sorted>
+  judge   → the op line is answered `-`; a following line `obs <harness record>` is
+            answered `ok` or `FAIL <reason>` (Iauthd.Module.judge on that observation)
+-/
+open Iauthd Iauthd.Module
+
+namespace Drv.ModuleDrv
+
+structure Op where
+  graph : List (String × List String) := []
+  bad : List String := []
+  lists : List (List String) := []
+  deriving Inhabited
+
+def splitNE (s : String) (sep : Char) : List String :=
+  (s.split (· == sep)).toList.map (·.toString) |>.filter (· ≠ "")
+
+def parseOp (f : List String) : Option Op :=
+  match f with
+  | "graph" :: g :: rest =>
+    let graph := if g == "-" then [] else
+      (splitNE g ';').map fun ent =>
+        match ent.splitOn ":" with
+        | [m] => (m, [])
+        | m :: ds :: _ => (m, splitNE ds ',')
+        | [] => ("", [])
+    let rec go (op : Op) : List String → Option Op
+      | [] => some op
+      | x :: xs =>
+        if x.startsWith "bad=" then go { op with bad := splitNE (x.drop 4).toString ',' } xs
+        else if x.startsWith "list=" then go { op with lists := op.lists ++ [splitNE (x.drop 5).toString ','] } xs
+        else none
+    go { graph } rest
+  | _ => none
+
+def Op.G (op : Op) (m : String) : List String :=
+  match op.graph.find? (·.1 == m) with
+  | some (_, ds) => ds
+  | none => []
+
+def Op.ok (op : Op) (m : String) : Bool := !op.bad.contains m
+
+def Op.universe (op : Op) : List String :=
+  (op.graph.flatMap (fun (m, ds) => m :: ds) ++ op.lists.flatten ++ op.bad).eraseDups
+
+/-- order of `set_compare_charp` -/
+def ltName (a b : String) : Bool := Bytes.strcasecmp (Bytes.ofString a) (Bytes.ofString b) < 0
+
+def showEvent : Event String → String
+  | .ctorBegin m => "ctor-begin:" ++ m
+  | .ctorEnd m => "ctor-end:" ++ m
+  | .postInit m => "post-init:" ++ m
+  | .dtor m => "dtor:" ++ m
+
+def parseEvent (s : String) : Option (Event String) :=
+  match s.splitOn ":" with
+  | ["ctor-begin", m] => some (.ctorBegin m)
+  | ["ctor-end", m] => some (.ctorEnd m)
+  | ["post-init", m] => some (.postInit m)
+  | ["dtor", m] => some (.dtor m)
+  | _ => none
+
+def showWhy : Why String → String
+  | .none => "-"
+  | .loop a b => s!"loop:{a}>{b}"
+  | .unloadable m => s!"unloadable:{m}"
+  | .fuel => "fuel"
+
+def showStatus (n : Nat) : String := if n ≥ 128 ∧ n < 255 then s!"sig{n - 128}" else toString n
+
+def showOutcome (o : Outcome String) : String :=
+  s!"status {showStatus o.status} why={showWhy o.why} events" ++
+    String.join (o.events.map fun e => " " ++ showEvent e)
+
+def runModel (pinned : Bool) (op : Op) : Outcome String :=
+  let fuel := op.universe.length + 1
+  runLists ltName op.G op.ok (if pinned then dfsPinned ltName else dfsFixed ltName) fuel op.lists {}
+
+def sortNames (xs : List String) : List String :=
+  (xs.toArray.qsort (fun a b => ltName a b)).toList
+
+def specLine (op : Op) : String :=
+  let U := op.universe
+  let L := op.lists.flatten
+  if mustAbort op.G op.ok U L then "demand abort"
+  else "demand run " ++ ",".intercalate (sortNames (reachable op.G U L).eraseDups)
+
+/-- first event (chronologically) that is not `okAt` its predecessors -/
+def firstDisorder (G : String → List String) : List (Event String) → List (Event String) → Option (Event String)
+  | _, [] => none
+  | seen, e :: rest => if okAt G seen e then firstDisorder G (e :: seen) rest else some e
+
+def judgeLine (op : Op) (rec : List String) : String :=
+  match rec with
+  | "status" :: st :: _why :: "events" :: evs =>
+    let status : Nat := if st.startsWith "sig" then 128 + ((st.drop 3).toString.toNat?.getD 0) else st.toNat?.getD 999
+    match evs.mapM parseEvent with
+    | none => "FAIL unparsable event in " ++ " ".intercalate evs
+    | some events =>
+      let U := op.universe
+      let L := op.lists.flatten
+      if judge op.G op.ok U L status events then "ok"
+      else if mustAbort op.G op.ok U L then
+        if status = 0 then "FAIL start-up succeeded although a reachable module is unloadable or on a dependency cycle"
+        else "FAIL post-init of a module that lies on a dependency cycle"
+      else if status ≠ 0 then s!"FAIL acyclic loadable graph but start-up aborted with status {st}"
+      else match firstDisorder op.G [] events with
+        | some e => s!"FAIL event out of order or repeated: {showEvent e}"
+        | none =>
+          if !completeRun L events then "FAIL a listed module was not constructed, or a constructed module lacks ctor-end / post-init / dtor"
+          else "FAIL an unloadable module was constructed"
+  | _ => "FAIL no status record: " ++ " ".intercalate rec
+
+end Drv.ModuleDrv
+
+open Drv Drv.ModuleDrv in
+def main (args : List String) : IO UInt32 := do
+  let mode := args.head?.getD "model"
+  let pinned := args.contains "pinned"
+  let lines ← readLines
+  let mut out : Array String := Array.mkEmpty lines.size
+  let mut cur : Option Op := none
+  for l in lines do
+    if l.startsWith "case " then
+      cur := none
+      out := out.push l
+    else
+      let f := fields l
+      if f.head? == some "obs" then
+        out := out.push (match cur with
+          | some op => if mode == "judge" then judgeLine op f.tail else "bad-op"
+          | none => "bad-op")
+      else
+        match parseOp f with
+        | none => cur := none; out := out.push "bad-op"
+        | some op =>
+          cur := some op
+          out := out.push (match mode with
+            | "model" => showOutcome (runModel pinned op)
+            | "spec" => specLine op
+            | "judge" => "-"
+            | _ => "bad-op")
+  emit (← IO.getStdout) out
+  return 0
